@@ -103,3 +103,15 @@ def handleLen (ws : List String) : Option String :=
     | none => some "bad-op"
   | _ => none
 end Insim.Drv.Pkt
+
+namespace Insim.Drv.Pkt
+def handleStr (ws : List String) : Option String :=
+  match ws with
+  | ["str.write", n, a, h] => match n.toNat?, a.toNat?, Insim.parseHex h with
+    | some n, some a, some e => some (Insim.toHex (Insim.Layout.writeStr n a e))
+    | _, _, _ => some "bad-op"
+  | ["str.read", h] => match Insim.parseHex h with
+    | some b => some (Insim.toHex (Insim.Layout.stripNul b))
+    | none => some "bad-op"
+  | _ => none
+end Insim.Drv.Pkt
